@@ -190,7 +190,7 @@ FAM_STRIDE_FOR = {
     "C19": {"MULTICHK": (1500, 20)},
     "C18": {"MULTICHK": (2500, 40)},
     "C09": {"ONLYEPCHKPRE": (20, 2), "ONLYCAP": (3000, 100), "EDGESTALE": (10, 1), "EPRANK2": (10, 1), "EPEVADE": (300, 10), "DBLCHK": (2, 1), "MULTICHK": (2500, 40)},
-    "C14": {"ONLYDBL": (12, 1), "PINMATE": (120, 4), "ONLYPROMO": (800, 16), "ONLYEPCHK": (40, 4), "PROMO": (8, 1), "EDGESTALE": (40, 4)},
+    "C14": {"ONLYDBL": (12, 1), "PINMATE": (120, 4), "ONLYPROMO": (800, 16), "ONLYEPCHK": (40, 4), "PROMO": (8, 2), "EDGESTALE": (40, 4)},
     "C08": {"CASTLE": (200, 10), "EPX": (100, 10), "PROMO": (4, 1), "ROOKCAP": (2, 1)},
     "C04": {"CASTLE": (80, 4), "CASTLEEP": (1, 1), "PROMOEP": (3, 1)},
     "C05": {"CASTLE": (80, 4), "CASTLEEP": (1, 1), "PROMOEP": (3, 1)},
